@@ -66,9 +66,8 @@ def gen_case(streams, tier, avoid):
         "crash_plan": None,
         "second": 0,
     }
-    if tier == "thorough":
-        case["second"] = cfg.choice([0, 3, 6])
-        case["second_seed"] = cfg.randrange(1 << 30)
+    case["second"] = cfg.choice([0, 0, 2]) if tier == "quick" else cfg.choice([0, 3, 6])
+    case["second_seed"] = cfg.randrange(1 << 30)
     return case
 
 
